@@ -107,6 +107,33 @@ def run_replay(ctx, path, features=(), out_name="replay"):
     return m, s, tr
 
 
+CORPUS = os.path.join(vlib.ROOT, "corpus", "seq")
+
+
+def run_corpus(ctx, features=()):
+    """Regression inputs: every replay file of corpus/seq/ (minimal call sequences of the findings exhibited so
+    far; default geometry) is executed on the current code before the generated suites.
+    Returns (mismatches, summary); a mismatch's path is the corpus file itself (it is its own replay)."""
+    mism, summ = [], {}
+    if features or not os.path.isdir(CORPUS):
+        return mism, summ
+    for f in sorted(os.listdir(CORPUS)):
+        if not f.endswith(".txt"):
+            continue
+        path = os.path.join(CORPUS, f)
+        m, s, _ = run_replay(ctx, path, features, out_name="corpus-" + f[:-4])
+        mism += [(k, "%s [corpus/seq/%s]" % (t, f), path) for k, t, _ in m]
+        _merge(summ, s)
+    summ["geometry"] = vlib.feat_dir(features)
+    return mism, summ
+
+
+def corpus_lines(path):
+    """replay lines of a corpus file (it already is a replay file)"""
+    with open(path) as fh:
+        return [ln.rstrip("\n") for ln in fh]
+
+
 def select(mism, corr=(), oracle=()):
     """Projection of the mismatches a property depends on -> (oracle_list, corr_list) of (kind, text, path).
     DRIVER failures always count as correspondence failures."""
